@@ -63,23 +63,133 @@ def _params(fn, star: bool = False) -> list[str]:
     return out
 
 
-def _is_owned_expr(e: ast.AST) -> bool:
+LIST_MUTATORS = {"sort", "reverse", "append", "extend", "insert", "pop", "remove", "clear"}
+
+
+def _is_owned_expr(e: ast.AST, owned_calls=None) -> bool:
+    owned_calls = OWNED_CALLS if owned_calls is None else owned_calls
     e = unwrap_await(e)
     if isinstance(e, (ast.List, ast.Dict, ast.Set, ast.Tuple, ast.ListComp, ast.DictComp, ast.SetComp, ast.GeneratorExp, ast.JoinedStr, ast.Constant)):
         return True
-    if isinstance(e, ast.Call) and callee_name(e) in OWNED_CALLS:
+    if isinstance(e, ast.Call) and callee_name(e) in owned_calls:
         return True
     if isinstance(e, ast.BinOp):
         return True  # a new object
     return False
 
 
-def input_mutations(fn_node, tainted_params: set[str], first_seq_param: str | None):
-    """Yield (node, description) for every in-place change of a tainted value."""
+def _covers_list(test: ast.AST, name: str) -> bool:
+    """``isinstance(name, list)`` / ``isinstance(name, (list, ...))``"""
+    if isinstance(test, ast.Call) and callee_name(test) == "isinstance" and len(test.args) == 2 and is_name(test.args[0], name):
+        t = test.args[1]
+        names = [text(x) for x in (t.elts if isinstance(t, ast.Tuple) else [t])]
+        return "list" in names
+    return False
+
+
+def _ownership_flow(names: set[str], owned_calls, visit):
+    """Must-dataflow of the fact ("safe", n): *if n is a list here, it is a list built by this
+    call chain* — n was bound to a freshly built container on every path, or is known not to be
+    a list (the false edge of ``isinstance(n, list)``)."""
+    from ..flow import MustFlow
+
+    def targets(st):
+        if isinstance(st, ast.Assign):
+            out = []
+            for t in st.targets:
+                out += [x.id for x in ast.walk(t) if isinstance(x, ast.Name) and isinstance(x.ctx, ast.Store)]
+            return out
+        if isinstance(st, (ast.AugAssign, ast.AnnAssign)) and isinstance(st.target, ast.Name):
+            return [st.target.id]
+        return []
+
+    def gen(st):
+        if isinstance(st, ast.Assign) and len(st.targets) == 1 and isinstance(st.targets[0], ast.Name) and _is_owned_expr(st.value, owned_calls):
+            return {("safe", st.targets[0].id)}
+        if isinstance(st, ast.AnnAssign) and isinstance(st.target, ast.Name) and st.value is not None and _is_owned_expr(st.value, owned_calls):
+            return {("safe", st.target.id)}
+        return set()
+
+    def kill(st, facts):
+        dead = set()
+        tg = targets(st)
+        if tg and not gen(st):
+            dead |= {f for f in facts if f[0] == "safe" and f[1] in tg}
+        return dead
+
+    def gen_cond(test, truth):
+        out = set()
+        t, want = test, truth
+        while isinstance(t, ast.UnaryOp) and isinstance(t.op, ast.Not):
+            t, want = t.operand, not want
+        if not want:
+            # false edge of isinstance(n, list...): n is not a list
+            if isinstance(t, ast.Call) and callee_name(t) == "isinstance" and len(t.args) == 2 and isinstance(t.args[0], ast.Name) and _covers_list(t, t.args[0].id):
+                out.add(("safe", t.args[0].id))
+            if isinstance(t, ast.BoolOp) and isinstance(t.op, ast.Or):
+                for v in t.values:
+                    out |= gen_cond(v, False)
+        else:
+            if isinstance(t, ast.BoolOp) and isinstance(t.op, ast.And):
+                for v in t.values:
+                    out |= gen_cond(v, True)
+        return out
+
+    class _Own(MustFlow):
+        def _apply(self, st_node, st):
+            out = super()._apply(st_node, st)
+            # an alias of a safe name is safe
+            if isinstance(st_node, ast.Assign) and len(st_node.targets) == 1 and isinstance(st_node.targets[0], ast.Name) and isinstance(st_node.value, ast.Name) and ("safe", st_node.value.id) in st:
+                out = frozenset(out | {("safe", st_node.targets[0].id)})
+            return out
+
+    return _Own(gen=gen, gen_cond=gen_cond, kill=kill, visit=visit)
+
+
+def returns_fresh(fn_node, owned_calls) -> bool:
+    """every ``return`` of the function hands back a container built inside it"""
+    ok = [True]
+    seen = [0]
+
+    def visit(node, st):
+        if isinstance(node, ast.Return):
+            seen[0] += 1
+            v = node.value
+            if v is None:
+                ok[0] = False
+            elif _is_owned_expr(v, owned_calls):
+                pass
+            elif isinstance(v, ast.Name) and ("safe", v.id) in st and False:
+                pass
+            else:
+                # a name that is freshly built on every path
+                if not (isinstance(v, ast.Name) and ("fresh", v.id) in st):
+                    ok[0] = False
+
+    flow = _ownership_flow(set(), owned_calls, visit)
+    # "fresh" = bound to an owned expression on every path (stronger than "safe")
+    base_gen, base_kill = flow.gen, flow.kill
+
+    def gen(st):
+        out = set(base_gen(st))
+        out |= {("fresh", n) for (k, n) in base_gen(st) if k == "safe"}
+        return out
+
+    def kill(st, facts):
+        dead = set(base_kill(st, facts))
+        dead |= {("fresh", n) for (k, n) in dead if k == "safe"}
+        return dead
+
+    flow.gen, flow.kill = gen, kill
+    flow.run(fn_node)
+    return ok[0] and seen[0] > 0
+
+
+def input_mutations(fn_node, tainted_params: set[str], first_seq_param: str | None, entry_safe: frozenset = frozenset(), owned_calls=None):
+    """Yield (node, description) for every in-place change of a tainted value that is not, at
+    that point, a container this call chain built itself."""
+    owned_calls = OWNED_CALLS if owned_calls is None else owned_calls
     tainted = set(tainted_params)
-    owned: set[str] = set()
-    # single forward pass over statements in source order (flow-insensitive aliasing is enough
-    # for the repo's straight-line filters; a name is owned only if *every* binding is owned)
     bindings: dict[str, list[ast.AST]] = {}
     for n in walk_no_nested(fn_node):
         if isinstance(n, ast.Assign) and len(n.targets) == 1 and isinstance(n.targets[0], ast.Name):
@@ -103,45 +213,56 @@ def input_mutations(fn_node, tainted_params: set[str], first_seq_param: str | No
                     src = "evaluate()"
                 elif isinstance(v, ast.Subscript) and isinstance(v.value, ast.Name) and v.value.id in tainted:
                     src = v.value.id
-                elif isinstance(v, ast.Attribute) and isinstance(v.value, ast.Name) and v.value.id in tainted and name not in ("self",):
-                    src = None  # attribute of a parameter: not followed
-                if src is not None and not _is_owned_expr(v):
+                elif isinstance(v, ast.Call) and v.args and isinstance(v.args[0], ast.Name) and v.args[0].id in tainted and callee_name(v) in OWNED_CALLS and callee_name(v) not in owned_calls:
+                    src = v.args[0].id  # a helper that may hand its argument back
+                if src is not None and not _is_owned_expr(v, owned_calls):
                     tainted.add(name)
                     changed = True
                     break
-    # a parameter that is rebound to an owned value everywhere before use is still tainted
-    # at entry; we flag only syntactic in-place operations on tainted names.
-    for n in walk_no_nested(fn_node):
+    found: list = []
+    seen_keys = set()
+
+    def report(node, what):
+        if (id(node), what) not in seen_keys:
+            seen_keys.add((id(node), what))
+            found.append((node, what))
+
+    def check(n, st):
         if isinstance(n, ast.Call) and isinstance(n.func, ast.Attribute) and n.func.attr in MUTATORS:
             base = call_recv(n)
-            if isinstance(base, ast.Name) and base.id in tainted and not _rebound_owned_before(fn_node, base.id, n, bindings):
-                yield n, f"{base.id}.{n.func.attr}()"
+            if isinstance(base, ast.Name) and base.id in tainted:
+                if not (("safe", base.id) in st and n.func.attr in LIST_MUTATORS):
+                    report(n, f"{base.id}.{n.func.attr}()")
         tgts = []
         if isinstance(n, ast.Assign):
             tgts = n.targets
         elif isinstance(n, ast.AugAssign):
             tgts = [n.target]
-            if isinstance(n.target, ast.Name) and n.target.id == first_seq_param and n.target.id in tainted_params:
-                yield n, f"{n.target.id} {type(n.op).__name__}= ... on the input sequence"
+            if isinstance(n.target, ast.Name) and n.target.id == first_seq_param and n.target.id in tainted_params and ("safe", n.target.id) not in st:
+                report(n, f"{n.target.id} {type(n.op).__name__}= ... on the input sequence")
         elif isinstance(n, ast.Delete):
             tgts = n.targets
         for t in tgts:
             for tt in t.elts if isinstance(t, ast.Tuple) else [t]:
                 if isinstance(tt, (ast.Subscript, ast.Attribute)):
                     base = tt.value
+                    direct = isinstance(base, ast.Name)
                     while isinstance(base, (ast.Subscript, ast.Attribute)):
                         base = base.value
-                    if isinstance(base, ast.Name) and base.id in tainted and base.id not in ("self", "cls") and not _rebound_owned_before(fn_node, base.id, n, bindings):
-                        yield n, f"store to {text(tt)[:40]}"
+                    if isinstance(base, ast.Name) and base.id in tainted and base.id not in ("self", "cls"):
+                        if not (direct and isinstance(tt, ast.Subscript) and ("safe", base.id) in st):
+                            report(n, f"store to {text(tt)[:40]}")
 
+    def visit(node, st):
+        # statements and branch tests: look at every call / store inside (nested defs excluded)
+        nodes = [node] + [x for x in walk_no_nested(node)] if not isinstance(node, (ast.If, ast.For, ast.AsyncFor, ast.While, ast.With, ast.AsyncWith, ast.Try, ast.ExceptHandler)) else ([node.iter] if isinstance(node, (ast.For, ast.AsyncFor)) else [i.context_expr for i in node.items] if isinstance(node, (ast.With, ast.AsyncWith)) else [])
+        for n in nodes:
+            for x in [n] + list(walk_no_nested(n)) if not isinstance(n, ast.stmt) or n is node else [n]:
+                check(x, st)
 
-def _rebound_owned_before(fn_node, name, use, bindings) -> bool:
-    """The name has been rebound to an owned container on an earlier line (e.g.
-    ``val = flatten(val)`` / ``left = list(...)``) — then it no longer aliases the input."""
-    for v in bindings.get(name, []):
-        if getattr(v, "lineno", 10**9) < getattr(use, "lineno", 0) and _is_owned_expr(v):
-            return True
-    return False
+    flow = _ownership_flow(tainted, owned_calls, visit)
+    flow.run(fn_node, frozenset(("safe", n) for n in entry_safe))
+    yield from found
 
 
 def run(repo: Repo) -> Result:
@@ -192,13 +313,42 @@ def run(repo: Repo) -> Result:
 
     # ---- C17-INPUT --------------------------------------------------------------
     n_funcs = 0
+    # helpers assumed to build a new container are checked, not trusted: `flatten` counts as
+    # "owned" only while every return of it hands back a list built inside it
+    owned_calls = set(OWNED_CALLS)
+    fl = repo.func("liquid.filter.flatten")
+    res.ob(f"fresh:{fl.qual}")
+    if not returns_fresh(fl.node, owned_calls - {"flatten"}):
+        owned_calls.discard("flatten")
+    res.stats["flatten_returns_fresh_list"] = "flatten" in owned_calls
+    # what each decorator wrapper hands to the filter as its first argument: "safe" = if it is a
+    # list, the wrapper built it (then the filter may sort / extend it in place)
+    dec_safe: dict[str, bool] = {}
+    for wname in ("string_filter", "array_filter", "sequence_filter", "liquid_filter", "math_filter"):
+        w = repo.func(f"liquid.filter.{wname}")
+        hole = w.params()[0]
+        for sub in ast.walk(w.node):
+            if isinstance(sub, ast.FunctionDef) and sub.name == "wrapper":
+                verdicts = []
+
+                def wvisit(node, st, hole=hole, verdicts=verdicts):
+                    for c in [node] + list(walk_no_nested(node)):
+                        if isinstance(c, ast.Call) and is_name(c.func, hole) and c.args:
+                            a0 = c.args[0]
+                            verdicts.append(_is_owned_expr(a0, owned_calls) or (isinstance(a0, ast.Name) and ("safe", a0.id) in st))
+
+                _ownership_flow(set(), owned_calls, wvisit).run(sub)
+                dec_safe[wname] = bool(verdicts) and all(verdicts)
+    res.stats["decorators_passing_fresh_lists"] = sorted(k for k, v in dec_safe.items() if v)
     for fi in reg.filter_functions():
         fn = fi.func
         params = [p for p in _params(fn.node) if p not in ("self", "cls", "context", "environment")]
         first = params[0] if params and any(d in ("sequence_filter", "array_filter") for d in fi.decorators) else None
         n_funcs += 1
         res.ob(f"input:{fn.qual}")
-        for node, what in input_mutations(fn.node, set(params), first):
+        decs = [d.split(".")[-1] for d in fi.decorators]
+        safe = frozenset({params[0]}) if params and any(dec_safe.get(d) for d in decs) else frozenset()
+        for node, what in input_mutations(fn.node, set(params), first, entry_safe=safe, owned_calls=owned_calls):
             res.add("C17-INPUT", fn.qual, what, f"filter {fi.name} ({fn.qual}) modifies its input in place: {what}", fn.file, node.lineno)
     for f in repo.all_functions():
         if f.cls is None:
@@ -209,7 +359,7 @@ def run(repo: Repo) -> Result:
             n_funcs += 1
             res.ob(f"input:{f.qual}")
             params = [p for p in _params(f.node) if p not in ("self", "cls", "context", "buffer", "_", "__", "_context", "_buffer", "token")]
-            for node, what in input_mutations(f.node, set(params), None):
+            for node, what in input_mutations(f.node, set(params), None, owned_calls=owned_calls):
                 res.add("C17-INPUT", f.qual, what, f"{f.qual} modifies render data in place: {what}", f.file, node.lineno)
     # the decorator wrappers themselves
     for wname in ("string_filter", "array_filter", "sequence_filter", "liquid_filter", "math_filter"):
@@ -218,7 +368,7 @@ def run(repo: Repo) -> Result:
             if isinstance(sub, ast.FunctionDef) and sub.name == "wrapper":
                 n_funcs += 1
                 res.ob(f"input:{w.qual}.wrapper")
-                for node, what in input_mutations(sub, {"val"}, "val"):
+                for node, what in input_mutations(sub, {"val"}, "val", owned_calls=owned_calls):
                     res.add("C17-INPUT", f"{w.qual}.wrapper", what, f"{w.qual} wrapper modifies the filter input in place: {what}", w.file, node.lineno)
     if n_funcs < 120:
         raise AnchorMissing(f"only {n_funcs} filter/evaluate/render functions analysed")
@@ -395,10 +545,16 @@ def selftest(repo: Repo):
         v("default-arg-memo", "liquid/utils/html.py", 'def strip_tags(value: str) -> str:\n    """Return the given value with all HTML tags removed."""\n', 'def strip_tags(value: str, _memo: dict = {}) -> str:\n    """Return the given value with all HTML tags removed."""\n    if value in _memo:\n        return _memo[value]\n    _memo[value] = value\n', "C17-MODULE"),
         v("memo-on-filter", "liquid/builtin/filters/math.py", "@math_filter\ndef ceil(", "@functools.lru_cache(maxsize=32)\n@math_filter\ndef ceil(", "C17-MEMO"),
         v("memo-on-date", "liquid/builtin/filters/misc.py", "@with_environment\n@liquid_filter\ndef date(", "@with_environment\n@liquid_filter\n@functools.lru_cache(maxsize=10)\ndef date(", "C17-MEMO"),
-        v("sort-in-place", A, "    try:\n        return sorted(sequence)\n    except TypeError as err:\n        raise FilterError(\"can't sort sequence\", token=None) from err", "    try:\n        sequence.sort()\n        return sequence\n    except TypeError as err:\n        raise FilterError(\"can't sort sequence\", token=None) from err", "C17-INPUT"),
-        v("reverse-in-place", A, "    return list(reversed(array))", "    array.reverse()\n    return array", "C17-INPUT"),
-        v("concat-extends-input", A, "    return list(chain(sequence, second_array))", "    sequence += list(second_array)\n    return sequence", "C17-INPUT"),
-        v("compact-deletes", A, "    return [itm for itm in sequence if itm is not None]", "    for i in range(len(sequence) - 1, -1, -1):\n        if sequence[i] is None:\n            del sequence[i]\n    return sequence", "C17-INPUT"),
+        v("concat-extends-second-argument", A, "    return list(chain(sequence, second_array))", "    second_array.extend(sequence)\n    return second_array", "C17-INPUT"),
+        v("compact-pops-key-of-items", A, "    return [itm for itm in sequence if itm is not None]", "    for itm in sequence:\n        if isinstance(itm, dict):\n            itm.pop('_tmp', None)\n    return [itm for itm in sequence if itm is not None]", "C17-INPUT"),
+        lambda rest=(A, "    try:\n        return sorted(sequence)\n    except TypeError as err:\n        raise FilterError(\"can't sort sequence\", token=None) from err", "    try:\n        second = sequence\n        second.sort()\n        return second\n    except TypeError as err:\n        raise FilterError(\"can't sort sequence\", token=None) from err",): Variant("sort-in-place-through-an-alias-of-the-fresh-list-is-silent", text_edit(repo, rest[0], rest[1], rest[2], 1), "C17-", silent=True),
+        lambda: Variant("sort-natural-in-place-on-fresh-list-is-silent", text_edit(repo, A, "    if key:\n        item_getter = partial(_getitem, key=str(key), default=MAX_CH)\n        return sorted(sequence, key=lambda obj: _lower(item_getter(obj)))\n\n    return sorted(sequence, key=_lower)", "    if not isinstance(sequence, list):\n        sequence = list(sequence)\n    if key:\n        item_getter = partial(_getitem, key=str(key), default=MAX_CH)\n        sequence.sort(key=lambda obj: _lower(item_getter(obj)))\n    else:\n        sequence.sort(key=_lower)\n    return sequence", 1), "C17-", silent=True),
+        lambda: Variant("flatten-returns-its-input-alone-is-silent", text_edit(repo, "liquid/filter.py", "    return list(_flatten(it, level))", "    if isinstance(it, list) and not any(isinstance(obj, (list, tuple)) for obj in it):\n        return it\n    return list(_flatten(it, level))", 1), "C17-", silent=True),
+        lambda: Variant("flatten-aliases-and-sort-natural-in-place", {**text_edit(repo, A, "    if key:\n        item_getter = partial(_getitem, key=str(key), default=MAX_CH)\n        return sorted(sequence, key=lambda obj: _lower(item_getter(obj)))\n\n    return sorted(sequence, key=_lower)", "    if not isinstance(sequence, list):\n        sequence = list(sequence)\n    if key:\n        item_getter = partial(_getitem, key=str(key), default=MAX_CH)\n        sequence.sort(key=lambda obj: _lower(item_getter(obj)))\n    else:\n        sequence.sort(key=_lower)\n    return sequence", 1), **text_edit(repo, "liquid/filter.py", "    return list(_flatten(it, level))", "    if isinstance(it, list) and not any(isinstance(obj, (list, tuple)) for obj in it):\n        return it\n    return list(_flatten(it, level))", 1)}, "C17-INPUT"),
+        lambda rest=(A, "    try:\n        return sorted(sequence)\n    except TypeError as err:\n        raise FilterError(\"can't sort sequence\", token=None) from err", "    try:\n        sequence.sort()\n        return sequence\n    except TypeError as err:\n        raise FilterError(\"can't sort sequence\", token=None) from err",): Variant("sort-in-place-on-the-wrapper's-fresh-list-is-silent", text_edit(repo, rest[0], rest[1], rest[2], 1), "C17-", silent=True),
+        lambda rest=(A, "    return list(reversed(array))", "    array.reverse()\n    return array",): Variant("reverse-in-place-on-the-wrapper's-fresh-list-is-silent", text_edit(repo, rest[0], rest[1], rest[2], 1), "C17-", silent=True),
+        lambda rest=(A, "    return list(chain(sequence, second_array))", "    sequence += list(second_array)\n    return sequence",): Variant("concat-extends-input-on-the-wrapper's-fresh-list-is-silent", text_edit(repo, rest[0], rest[1], rest[2], 1), "C17-", silent=True),
+        lambda rest=(A, "    return [itm for itm in sequence if itm is not None]", "    for i in range(len(sequence) - 1, -1, -1):\n        if sequence[i] is None:\n            del sequence[i]\n    return sequence",): Variant("compact-deletes-on-the-wrapper's-fresh-list-is-silent", text_edit(repo, rest[0], rest[1], rest[2], 1), "C17-", silent=True),
         v("node-caches-on-self", "liquid/builtin/output.py", "        return buffer.write(\n            to_liquid_string(self.expression.evaluate(context), context.autoescape)\n        )", "        self.last = to_liquid_string(self.expression.evaluate(context), context.autoescape)\n        return buffer.write(self.last)", "C17-AST"),
         v("node-flips-blank", "liquid/builtin/tags/if_tag.py", "        if self.condition.evaluate(context):\n            return self.consequence.render(context, buffer)", "        if self.condition.evaluate(context):\n            self.consequence.blank = False\n            return self.consequence.render(context, buffer)", "C17-AST"),
         v("cycle-state-on-node", "liquid/builtin/tags/cycle_tag.py", "        index = context.cycle(key, len(args))\n\n        if index >= len(args):\n            return 0\n\n        return buffer.write(\n            to_liquid_string(args[index], autoescape=context.autoescape)\n        )\n\n    async def", "        self.args.append(self.args.pop(0))\n        index = 0\n\n        return buffer.write(\n            to_liquid_string(args[index], autoescape=context.autoescape)\n        )\n\n    async def", "C17-AST"),
